@@ -7,7 +7,9 @@ Tr == ndJsonDeserialize("rt_trace.ndjson")
 Chunk == 200
 Why(ev) ==
   IF ev.err # "" THEN <<[g |-> "top", t |-> "top", path |-> <<>>, sym |-> "error"]>>
-  ELSE Diff(IF ev.codec = "json" THEN NFItem(ev.in) ELSE GFItem(ev.in), ev.out)
+  ELSE LET e == IF ev.codec = "json" THEN NFItem(ev.in) ELSE GFItem(ev.in)
+           \* a type's own decoder fills the struct it is called on: only the package-level pair chooses the struct by the type name
+       IN Diff(IF ev.via # "pkg" /\ e.k = "obj" /\ ev.in.k = "obj" THEN [e EXCEPT !.g = ev.in.g] ELSE e, ev.out)
 INSTANCE EventJudge
 TraceSpec == JInit /\ phase = "judge" /\ codec = "json" /\ orig = NilItem /\ val = NilItem
              /\ [][(JStep \/ JFinish) /\ UNCHANGED vars]_<<jvars, vars>>
